@@ -896,7 +896,8 @@ def run(ctx):
                     "across 1-3 libraries, also by definitions outside the top hierarchy and by parent-less instances), pass-through and wire-only "
                     "cells, unconnected pins, bus ports/cables, unnamed definitions/instances, EDIF.identifier entries, taken _sdn_unique_ names; "
                     "distinct = distinct spec; non-trivial = uniquify creates at least one definition")
-        ctx.assumptions = ["default naming policy (no EDIF namespace active)", "netlist self-contained (every reference inside it), acyclic",
+        ctx.assumptions = ["leaf = Definition.is_leaf() as coded: no children AND no cables",
+                           "default naming policy (no EDIF namespace active)", "netlist self-contained (every reference inside it), acyclic",
                            "'instance reachable from top' = strictly below the top instance (the top instance itself is never re-pointed; docs: 'below the top instance')",
                            "data values are JSON-like (deepcopy modelled as identity)"]
     else:
@@ -904,7 +905,8 @@ def run(ctx):
                     "through the real uniquify first): depth <= 5, pass-through and wire-only cells, inner nets tied to several ports, ports unconnected "
                     "inside/outside, buses, EDIF.identifier entries, definitions outside the hierarchy; distinct = distinct spec; non-trivial = at least "
                     "one hierarchical instance is dissolved")
-        ctx.assumptions = ["default naming policy", "input well-formed, uniquified (every non-leaf instance below top is the only member of its definition's reference set), acyclic",
+        ctx.assumptions = ["leaf = Definition.is_leaf() as coded: no children AND no cables (pass-through / wire-only / cable-only cells are hierarchy that flatten dissolves)",
+                           "default naming policy", "input well-formed, uniquified (every non-leaf instance below top is the only member of its definition's reference set), acyclic",
                            "instances and cables named; names non-empty and without '/' (otherwise slash-joined path names are not injective and the property is unsatisfiable)",
                            "'data' of a leaf instance = its dictionary without the naming keys .NAME / EDIF.identifier (flatten renews the identifier by design)"]
     if not ok:
